@@ -54,14 +54,22 @@ func (h *liquidBlockHeaderSubscriber) Deregister(o TXObserver) {
 }
 
 func (h *liquidBlockHeaderSubscriber) Update(ctx context.Context, blockHeight BlockHeight) error {
+	// The callbacks run into the swap state machine, which may register a new
+	// observer from one of its actions. Holding the lock while they run would
+	// deadlock against that registration, so iterate over a copy.
 	h.mu.Lock()
-	defer h.mu.Unlock()
-	for _, observer := range h.txObservers {
+	observers := make([]TXObserver, len(h.txObservers))
+	copy(observers, h.txObservers)
+	h.mu.Unlock()
+
+	for _, observer := range observers {
 		callbacked, err := observer.Callback(ctx, blockHeight)
 		if callbacked {
 			if err == nil || errors.Is(err, swap.ErrSwapDoesNotExist) {
 				// callbacked and no error, remove observer
+				h.mu.Lock()
 				h.Deregister(observer)
+				h.mu.Unlock()
 			}
 		}
 		if err != nil && !errors.Is(err, swap.ErrSwapDoesNotExist) {
